@@ -33,6 +33,11 @@ class Abort(BaseException):
     """Raised inside an abandoned thread at the end of an execution to unwind it."""
 
 
+class StepHorizon(BaseException):
+    """The grader thread made more scheduling steps in one execution than any terminating run needs
+    (an explicit horizon: code that polls until something happens never goes quiescent)."""
+
+
 class Deadlock(Exception):
     pass
 
@@ -61,6 +66,10 @@ class Scheduler:
         self.draining = False
         self.drain_steps = 0
         self.drain_exhausted = False
+        self.student_steps = 0
+        self.zero_join_at = -1
+        self.step_limit = 20000      # longest execution of the unchanged tree: ~1.1 k steps
+        self.horizon_hit = False
 
     # -- helpers ------------------------------------------------------------------------
     def runnable(self, n):
@@ -85,6 +94,13 @@ class Scheduler:
                 raise Abort()
             return
         self.steps += 1
+        if me != 'G':
+            self.student_steps += 1
+        if me == 'G' and self.steps > self.step_limit and (self.steps - self.step_limit) % 500 == 1:
+            # raised again every 500 steps: code under test that swallows it once must not run on for ever
+            self.horizon_hit = True
+            self.log.append(('step horizon reached', where))
+            raise StepHorizon('the grader thread is still running after %d scheduling steps' % self.step_limit)
         ctx = self.ctx
         if self.draining:
             # the grader is done: abandoned threads run alone, up to a horizon
@@ -324,10 +340,16 @@ def install():
         s.join_steps = 0
         s.join_timed = timeout is not None
         if s.join_timed:
-            # the timer may fire at once (0) or the student runs first (1): a free choice
-            c = s.ctx.choose(2, 'join:timer-first|student-first', costs=(0, 0))
+            # the timer may fire at once (0) or the student runs first (1): a free choice -- except that a
+            # grader polling with timed waits must let the other thread run between two of them (fairness:
+            # a real join(t) that times out twice in a row with a runnable student that never ran does not exist)
+            if s.zero_join_at == s.student_steps:
+                c = 1
+            else:
+                c = s.ctx.choose(2, 'join:timer-first|student-first', costs=(0, 0))
             if c == 0:
                 s.timer_fired = True
+                s.zero_join_at = s.student_steps
                 s.log.append(('timer fires', 'at once'))
                 return
         s.waiting_join = name
